@@ -43,6 +43,7 @@ type Profile struct {
 	BigMaps    bool // bind maps with 2..12 entries (C02)
 	Ticks      bool // conditions may pass through the counting filter `tick`
 	NumPrint   bool // numeric variables only where C18 names them: print, comparison, case/when, arithmetic (not as index, limit, offset or range endpoint)
+	LoopRecord bool // a loop body may keep its forloop record in a variable (lf) and read it later
 	BareJumps  bool // break / continue may stand directly in a loop body, not only under an if
 	PlainPunct bool // no [ ] < > in tags and objects (C19: those characters may be delimiters)
 	TypedNames bool // assignments use one variable name per kind (C18: role-typed programs)
@@ -85,7 +86,7 @@ type genv struct {
 }
 
 var textAlphabet = []string{"", "x", "ab", " ", "y ", " z", "\n", ". ", "é", "1,"}
-var wsAlphabet = []string{"", " ", "  ", "\n", " \n\t", "a", " b ", "\tc", "d\n", " \n e \n "}
+var wsAlphabet = []string{"", " ", "  ", "\n", " \n\t", "a", " b ", "\tc", "d\n", " \n e \n ", "voilà", "Å ", " 内", "\u00a0x\u00a0", "\u3000"}
 var strPool = []string{"", "a", "b", "ab", "B", "a b", "é", "x1", " pad ", "a,b"}
 
 // GenBindings draws the standard binding environment.
@@ -156,6 +157,7 @@ func GenBindings(t *rapid.T, p Profile) Bindings {
 	if p.OrdMap {
 		b["ms"] = SMap("a", SInt(small.Draw(t, "msa")), "b", SInt(small.Draw(t, "msb")))
 		b["bs"] = SStr(str.Draw(t, "bs"))
+		b["ba"] = SArr(SStr(str.Draw(t, "ba0")), SStr(str.Draw(t, "ba1")), SNil())
 	}
 	return b
 }
@@ -243,6 +245,7 @@ func (g *genv) node(depth int) *N {
 	if g.p.OrdMap {
 		// a byte slice is only promised to print as the string
 		opts = append(opts, opt{1, func() *N { return Obj(Var("bs")) }})
+		opts = append(opts, opt{1, func() *N { return Obj(Var("ba")) }}) // an array of such strings, printed as a whole
 	}
 	if g.p.Assign {
 		opts = append(opts, opt{2, g.assign})
@@ -272,6 +275,21 @@ func (g *genv) node(depth int) *N {
 		opts = append(opts, opt{2, func() *N {
 			fields := []string{"index", "index0", "rindex", "rindex0", "length", "first", "last"}
 			return Obj(Prop(Var("forloop"), fields[g.pick("ff", len(fields))]))
+		}})
+		if g.p.LoopRecord {
+			opts = append(opts, opt{1, func() *N {
+				if g.pick("lfcond", 2) == 0 {
+					return &N{T: "if", E: Prop(Var("forloop"), "first"), Body: []*N{Assign("lf", Var("forloop"))}}
+				}
+				return Assign("lf", Var("forloop"))
+			}})
+		}
+	}
+	if g.p.LoopRecord {
+		// the record assigned in some iteration keeps that iteration's values
+		opts = append(opts, opt{1, func() *N {
+			fields := []string{"index", "index0", "rindex", "length", "first", "last"}
+			return Obj(Prop(Var("lf"), fields[g.pick("lff", len(fields))]))
 		}})
 	}
 	if g.p.Comment {
